@@ -30,6 +30,7 @@ mod c16;
 mod c16_sched;
 mod c17;
 mod c18;
+mod c18b;
 mod c19;
 mod c20;
 
@@ -153,6 +154,7 @@ fn main() {
         "c16" => c16::run(&mut ctx),
         "c17" => c17::run(&mut ctx),
         "c18" => c18::run(&mut ctx),
+        "c18b" => c18b::run(&mut ctx),
         "c19" => c19::run(&mut ctx),
         "c20" => c20::run(&mut ctx),
         d => {
